@@ -293,3 +293,224 @@ PLANS["C14"] = dict(
                  "the walker theorems are about the structural recursion of Wx/Disc/Walk.lean (filter as a parameter with the scoping law proved in C03); that the real stack walk is this recursion is validated by the discover stream, not proved"],
     partial="walker = specification is proved for the structural-recursion model with the filter as a parameter; the stack-and-skip-list code is tied to it by correspondence only",
 )
+
+# ------------------------------------------------------------------------------------------------
+# the job task: C04, C06, C07, C09, C10 share the `job-sim` stream
+
+import random, hashlib
+from concurrent.futures import ThreadPoolExecutor
+
+JOB_FIXED = [l for l in """
+f1 S30 s:start;y;a:10;s:gstop:15:100;a:300
+f1b S30 s:start;y;a:10;s:gstop:15:100;s:run:1;a:300
+f6 I s:towait;a:50;s:start;y
+f6b F,I s:start;y;s:towait;a:50
+ign I s:start;y;a:10;s:gstop:15:100;a:300
+f4 I,E50,E50,E50 s:start;y;a:10;s:gtryrestart:15:20;a:300
+f2 S10,F,I s:start;y;s:seterr;y;s:gtryrestart:15:100;a:300
+f2b S10,F,I s:start;y;s:gtryrestart:15:100;s:run:1;a:300
+rst E1000,I s:start;a:5;s:restart;a:5;s:run:1;y
+grst S30,I s:start;a:5;s:grestart:2:100;a:200;s:run:1;y
+grst0 I,I s:start;a:5;s:grestart:15:0;a:5;s:run:1;y
+q I s:run:1;s:run:2;s:run:3;y
+try I s:tryrestart;y;s:run:1;s:start;y;s:tryrestart;y;s:run:2;y
+sigs I s:start;y;s:signal:10;s:signal:0;s:signal:99;y
+del I s:start;y;s:towait;s:delete;a:10;s:start;y
+f16 I s:towait;y;drop;y
+f16b I s:start;y;s:towait;drop;a:10
+f16c I s:start;y;s:gstop:15:50;drop;a:100
+nat E50 s:start;s:towait;a:100;s:run:1;s:towait;y
+f5 I s:towait;s:towait;s:towait;y;s:deletenow;y
+f5b I s:start;y;s:towait;s:towait;s:stop;y
+f7a I y;s:run:1;s:deletenow;y
+f7b I y;s:start;s:towait;a:10
+f7c I y;s:run:1;s:run:2;s:towait;s:deletenow;y
+f7d I,I s:start;y;s:gstop:15:50;y;s:run:1;s:towait;s:deletenow;a:100
+edge S50 s:start;y;s:gstop:15:50;a:100
+edge2 E60 s:start;a:10;s:gstop:15:50;a:100
+""".strip().splitlines()]
+
+JOB_ALPHABET = ["start", "stop", "gstop:15:20", "restart", "grestart:15:20", "tryrestart", "gtryrestart:15:20", "signal:10", "towait", "delete", "deletenow", "run:1", "seterr"]
+
+def job_scripts(seed, n_random, exhaustive_len):
+    r = random.Random(seed)
+    out = list(JOB_FIXED)
+    # bounded-exhaustive: every sequence of `exhaustive_len` API calls over the public alphabet, burst and settled, x 3 behaviours
+    def seqs(k):
+        if k == 0: yield []; return
+        for s in seqs(k - 1):
+            for a in JOB_ALPHABET: yield s + [a]
+    i = 0
+    for behs in ("I", "S10,E30", "F,I"):
+        for sq in seqs(exhaustive_len):
+            for sep in ("", "y"):
+                ops = []
+                for a in sq:
+                    ops.append("s:" + a)
+                    if sep: ops.append(sep)
+                ops.append("a:100")
+                out.append(f"x{i} {behs} {';'.join(ops)}"); i += 1
+    # C10-shaped: let the task park, then a burst mixing priorities, with and without an armed timer
+    for j in range(60):
+        pre = r.choice(["y", "s:start;y", "s:start;y;s:gstop:15:50;y", "s:start;y;s:gtryrestart:15:50;y"])
+        burst = [r.choice(["s:run:%d" % k, "s:run:%d" % k, "s:towait", "s:deletenow", "s:start", "s:stop", "n:run:%d" % (k + 50)]) for k in range(r.randint(2, 5))]
+        out.append(f"p{j} {r.choice(['I', 'I,I', 'S30,I'])} {pre};{';'.join(burst)};a:{r.choice([10, 100])}")
+    def beh():
+        k = r.random()
+        if k < 0.3: return f"E{r.choice([0,1,5,10,20,50,100,200])}"
+        if k < 0.6: return f"S{r.choice([0,1,5,10,30,50,100,150])}"
+        if k < 0.9: return "I"
+        return "F"
+    def api():
+        k = r.choice(["start", "start", "stop", "gstop", "restart", "grestart", "tryrestart", "gtryrestart", "signal", "towait", "towait", "delete", "deletenow", "run", "run", "seterr", "unseterr"])
+        g = r.choice([1, 2, 9, 10, 15, 15, 15, 0, 64]); ms = r.choice([0, 1, 5, 10, 20, 50, 100])
+        if k in ("gstop", "grestart", "gtryrestart"): return f"{k}:{g}:{ms}"
+        if k == "signal": return f"signal:{g}"
+        if k == "run": return f"run:{r.randrange(100)}"
+        return k
+    for i in range(n_random):
+        behs = ",".join(beh() for _ in range(r.randint(1, 4)))
+        ops = []
+        for _ in range(r.randint(2, 12)):
+            ops.append(("s:" if r.random() < 0.85 else "n:") + api())
+            k = r.random()
+            if k < 0.35: ops.append("y")
+            elif k < 0.75: ops.append(f"a:{r.choice([0,1,5,10,20,30,50,100,150,300])}")
+        if r.random() < 0.08:
+            # every Job handle is dropped at a random point: nothing can be sent afterwards
+            k = r.randrange(len(ops) + 1)
+            ops = ops[:k] + ["drop"] + [o for o in ops[k:] if o[0] in "ay"]
+        ops.append(f"a:{r.choice([50,300,500])}")
+        out.append(f"r{seed}_{i} {behs} {';'.join(ops)}")
+    return out
+
+def job_norm(t):
+    return "|".join(e for e in t.split("|") if not e.endswith(":ended"))
+
+def job_oracles(script, trace):
+    """sound trace-level checks of the job properties on one implementation trace; returns list of (property, what)"""
+    out = []
+    ev = [e for e in trace.split("|") if e and not e.startswith("unres:")]
+    unres = [x for x in trace.rsplit("unres:", 1)[1].split(",") if x] if "unres:" in trace else []
+    # C04: never two spawned-and-unreaped children
+    live = set()
+    for e in ev:
+        p = e.split(":")
+        if p[1] == "spawn":
+            if live: out.append(("C04", f"spawn of {p[2]} at {p[0]} ms while {sorted(live)} not yet reaped"))
+            live.add(p[2])
+        elif p[1] == "reaped": live.discard(p[2])
+    # C07: the task must not die by panic; once the job has ended no ticket may stay unresolved
+    if any(e.split(":")[1] == "panicked" for e in ev): out.append(("C07", "the job task panicked"))
+    ops = script.split(" ")[2].split(";")
+    ended = any(e.endswith(":ended") for e in ev)
+    if ended and unres: out.append(("C07", f"job ended but tickets {unres} never resolved"))
+    # C07 / C09: with no child left (every spawned one reaped) nothing can hold a control back, so by the end of the
+    # script (which ends with a long quiet period) every awaited ticket must have resolved
+    sends = [o for o in ops if o[:2] in ("s:", "n:")]
+    if not live and unres:
+        for u in unres:
+            o = sends[int(u)] if int(u) < len(sends) else "?"
+            if o.split(":")[1] == "towait": out.append(("C09", f"wait-for-end ticket {u} not resolved although nothing is running"))
+            out.append(("C07", f"ticket {u} of `{o}` never resolved although no process is left and the script has gone quiet"))
+    # C06 / C09: each spawn is caused by one spawning control (start, restart, try-restart and graceful variants)
+    nspawnctl = sum(1 for o in sends if o.split(":")[1] in ("start", "restart", "grestart", "tryrestart", "gtryrestart"))
+    nspawn = sum(1 for e in ev if e.split(":")[1] in ("spawn", "spawnfail"))
+    if nspawn > nspawnctl:
+        out.append(("C06", f"{nspawn} spawn attempts for {nspawnctl} controls that can spawn: a restart started more than once"))
+        out.append(("C09", f"{nspawn} spawn attempts for {nspawnctl} controls that can spawn"))
+    # C10: normal-priority run markers execute in send order
+    sent_runs = [o.split(":")[2] for o in ops if o[:2] in ("s:", "n:") and o.split(":")[1] == "run"]
+    ran = [e.split(":")[2] for e in ev if e.split(":")[1] == "run"]
+    it = iter(sent_runs)
+    if len(set(sent_runs)) == len(sent_runs) and not all(any(x == y for y in it) for x in ran):
+        out.append(("C10", f"run markers executed as {ran}, sent as {sent_runs}"))
+    if len(ran) != len(set(ran)) and len(set(sent_runs)) == len(sent_runs): out.append(("C07", f"a run marker executed twice: {ran}"))
+    # C06: no kill before the grace period of some graceful control has elapsed, in scripts without forceful controls
+    forceful = any(o[:2] in ("s:", "n:") and o.split(":")[1] in ("stop", "restart", "tryrestart", "delete", "deletenow") for o in ops) or "drop" in ops
+    if not forceful:
+        now = 0; deadlines = []
+        for o in ops:
+            p = o.split(":")
+            if p[0] == "a": now += int(p[1])
+            elif p[0] in ("s", "n") and p[1] in ("gstop", "grestart", "gtryrestart"): deadlines.append(now + int(p[3]))
+        for e in ev:
+            p = e.split(":")
+            if p[1] == "kill" and not any(d <= int(p[0]) for d in deadlines):
+                out.append(("C06", f"kill of {p[2]} at {p[0]} ms, before any grace period had elapsed (deadlines {deadlines})"))
+    return out
+
+def job_stream(pid, ctx, n_random=None):
+    n_random = n_random or (40000 if ctx["thorough"] else 5000)
+    s = core.StreamResult("job-sim")
+    d = core.WORK / pid / "job-sim"; d.mkdir(parents=True, exist_ok=True)
+    scripts = job_scripts(ctx["seed"], n_random, 3 if ctx["thorough"] else 2)
+    # corpus first
+    corpus = core.VERIF / "corpus" / "job"
+    if corpus.exists():
+        for f in sorted(corpus.glob("*.txt")): scripts = [l for l in f.read_text().splitlines() if l.strip()] + scripts
+    (d / "cases.txt").write_text("\n".join(scripts) + "\n")
+    k = 12
+    chunks = [scripts[i::k] for i in range(k)]
+    def run_chunk(ch):
+        p = subprocess.run([str(core.TARGET / "wxjob")], input="\n".join(ch) + "\n", capture_output=True, text=True, timeout=3000)
+        return p.returncode, p.stdout.splitlines(), p.stderr[-500:]
+    with ThreadPoolExecutor(k) as ex: res = list(ex.map(run_chunk, chunks))
+    impl = {}
+    for ch, (rc, lines, err) in zip(chunks, res):
+        if rc != 0 or len(lines) != len(ch):
+            s.error = f"wxjob failed rc={rc} ({len(lines)}/{len(ch)} lines): {err}"; return s
+        for c, l in zip(ch, lines): impl[c] = l
+    (d / "impl.txt").write_text("\n".join(impl[c] for c in scripts) + "\n")
+    ok, err = core.run_driver(["job", "all"], d / "cases.txt", d / "model.txt")
+    if not ok: s.error = "wxdriver job failed: " + err[-800:]; return s
+    model = core.read_lines(d / "model.txt")
+    s.evaluations = len(scripts)
+    for i, (c, mo) in enumerate(zip(scripts, model)):
+        ia, ta = impl[c].split(" ", 1); ib, tb = mo.split(" ", 1) if " " in mo else (mo, "")
+        alts = [job_norm(x) for x in tb.split(" ## ")]
+        if len(alts) > 1: s.bump("racy (model admits several traces)")
+        if not ta.endswith("unres:"): s.bump("ends with unresolved tickets")
+        if "spawn:" in ta: s.bump("spawns a child")
+        if "kill:" in ta: s.bump("kills a child")
+        if "drop" in c: s.bump("drops the handles")
+        s.bump("kind-" + c[0])
+        if job_norm(ta) not in alts and len(s.disagreements) < 200:
+            s.disagreements.append((i, c, ta, " ## ".join(alts[:3])))
+        for prop, what in job_oracles(c, ta):
+            s.oracle_failures.append((i, c, ta, f"[{prop}] {what}"))
+        if "spawn:" in ta: s.nontrivial.add(hashlib.md5((c.split(" ", 1)[1] + ta).encode()).digest()[:8])
+        if i % max(1, len(scripts) // 4) == 0 and len(s.samples) < 4: s.samples.append({"script": c, "impl": ta[:300], "model": tb[:300]})
+    s.note = ("scripts of API calls / virtual-time gaps / settles / handle drops against the real start_job (simulated child through the public spawn hook, paused clock, "
+              "tickets polled by hand with recording wakers) vs the model's set of admissible traces: fixed scripts for every past finding, bounded-exhaustive sequences over the "
+              "13-call public alphabet x {burst, settled} x 3 child behaviours, 60 park-then-mixed-priority-burst scripts, then seeded random scripts")
+    return s
+
+def job_plan(pid, modules, theorems, rule_extra, partial=""):
+    def streams(ctx):
+        s = job_stream(pid, ctx)
+        # an oracle failure is reported under the property it belongs to; others are left to that property's own check
+        s.oracle_failures = [f for f in s.oracle_failures if f[3].startswith(f"[{pid}]")]
+        return [s]
+    return dict(modules=modules, theorems=theorems, bins=[("lib", ["wxjob"])], streams=streams,
+                sources=["crates/supervisor/src/job/task.rs", "crates/supervisor/src/job/priority.rs", "crates/supervisor/src/job/state.rs", "crates/supervisor/src/job/job.rs",
+                         "crates/supervisor/src/job/messages.rs", "crates/supervisor/src/flag.rs"],
+                rule="a case is one script (behaviour list + operation list); non-trivial = at least one child is spawned; distinct by (script body, implementation trace). " + rule_extra,
+                assumptions=["tokio: unbounded mpsc is FIFO, select! (biased) polls in order, paused-clock timers fire in deadline order — modelled; the eager scheduler of the model is the paused current-thread runtime of the harness",
+                             "process-wrap child (wait/kill/signal) is replaced by a scripted child installed through the public spawn hook; real processes are exercised by C18/C08 streams only",
+                             "Relaxed atomics in flag.rs are modelled as sequentially consistent"],
+                partial=partial)
+
+PLANS["C04"] = job_plan("C04", ["Wx.Job.C04Sim"], ["Jm.c04", "Jm.inv_runOps", "Jm.inv_stepOp"], "Oracle: at most one spawned-and-unreaped child at every point of the implementation trace.")
+PLANS["C06"] = job_plan("C06", ["Wx.Job.C06", "Wx.Job.C10b"],
+    ["Jm.graceful_stop_step", "Jm.graceful_restart_step", "Jm.signalChild_log", "Jm.timer_fires", "Jm.timer_not_early", "Jm.held_back", "Jm.killReap_log", "Jm.expiry_kills",
+     "Jm.continue_clears", "Jm.no_extra_respawn_fixed", "Jm.extra_respawn_today", "Jm.c10_priority"],
+    "Oracle: in scripts without forceful controls no kill happens before some graceful control's grace period has elapsed.")
+PLANS["C07"] = job_plan("C07", ["Wx.Job.C07b", "Wx.Job.C07w", "Wx.Job.C10c"],
+    ["Jm.c07_noLost", "Jm.c07_noLost_fails_today", "Jm.c07_tickets", "Jm.c07_tickets_fails_today", "Jm.c10_ran", "Jm.timer_fires", "Jm.expiry_kills"],
+    "Oracle: the task never panics; after the job has ended no ticket stays unresolved; no run marker executes twice.",
+    partial="the liveness step 'a held flag is eventually raised' is the conjunction of timer_fires / expiry_kills (eager scheduler) and the wait branch; a wait-for-end ticket on a child that never ends legitimately never resolves")
+PLANS["C09"] = job_plan("C09", ["Wx.Job.C09", "Wx.Job.C09b"], ["Jm.handle_refines", "Jm.waitBranch_refines", "Jm.spawn_refines", "Jm.spawnB_refines", "Jm.continue_idle"],
+    "The run markers record (current, previous) state, so the observable state is compared step by step with the model, which refines the documented machine (specStep).")
+PLANS["C10"] = job_plan("C10", ["Wx.Job.C10b", "Wx.Job.C10c"], ["Jm.c10_fifo", "Jm.c10_priority", "Jm.c10_priority_fails_today", "Jm.c10_ran"],
+    "Oracle: normal-priority run markers execute in send order.")
